@@ -519,7 +519,43 @@ def expr_str(F, v, depth=0):
 
 
 class PathInfo:
-    __slots__ = ("blocks", "facts", "insts", "ret", "retinst")
+    __slots__ = ("blocks", "facts", "insts", "ret", "retinst", "bidx", "fact_k")
+
+    def at(self, F, v, k):
+        """SSA value v as seen at path position k (phis resolved by the edges actually taken up to there);
+        pointer casts stripped.  Returns an int, a ref dict or an Inst."""
+        r = eval_on_path(F, v, self.blocks, upto=k)
+        for _ in range(8):
+            if isinstance(r, Inst) and r.op == "bitcast":
+                r = eval_on_path(F, r.ops[0], self.blocks, upto=k)
+            else:
+                break
+        return r
+
+    @staticmethod
+    def same(a, b):
+        if isinstance(a, Inst) and isinstance(b, Inst):
+            return a.id == b.id and a.fn is b.fn
+        if isinstance(a, Inst) or isinstance(b, Inst):
+            return False
+        return a == b
+
+    def contradictory(self, F):
+        """Two facts on the same resolved value that cannot both hold (x == c and x != c, x == c1 and x == c2)."""
+        seen = []
+        for (val, pred, c, t, br, pos), k in zip(self.facts, self.fact_k):
+            if pred not in ("eq", "ne") or not isinstance(c, int):
+                continue
+            r = self.at(F, val, k)
+            if isinstance(r, Inst) and r.op in ("load", "call"):
+                # memory / call results may change between two evaluations of the same instruction in a loop
+                r = (r.id, k if self.blocks.count(self.blocks[k]) > 1 else -1, "dyn")
+            for (r2, p2, c2) in seen:
+                if (r2 == r if not isinstance(r, Inst) else (isinstance(r2, Inst) and r2.id == r.id)):
+                    if (pred != p2 and c == c2) or (pred == "eq" and p2 == "eq" and c != c2):
+                        return True
+            seen.append((r, pred, c))
+        return False
 
 
 def paths_with_facts(F, max_paths=20000):
@@ -530,11 +566,15 @@ def paths_with_facts(F, max_paths=20000):
         P.blocks = path
         P.facts = []
         P.insts = []
+        P.bidx = []
+        P.fact_k = []
         for k, b in enumerate(path):
             B = F.bmap[b]
             for I in B.insts:
                 P.insts.append(I)
+                P.bidx.append(k)
             T = B.insts[-1]
+            nf0 = len(P.facts)
             if T.op == "br" and T.raw.get("cond") and k + 1 < len(path):
                 taken_true = T.raw["succ"][0] == path[k + 1]
                 if T.raw["succ"][0] == T.raw["succ"][1]:
@@ -554,6 +594,8 @@ def paths_with_facts(F, max_paths=20000):
                     P.facts.append((T.ops[0], "switch-default", tuple(cs["v"] for cs in T.raw.get("cases", [])), True, T, len(P.insts) - 1))
                 else:
                     P.facts.append((T.ops[0], "eq", vals[0], True, T, len(P.insts) - 1))
+            while len(P.fact_k) < len(P.facts):
+                P.fact_k.append(k)
         R = P.insts[-1]
         P.retinst = R
         P.ret = eval_on_path(F, R.ops[0], path) if (R.op == "ret" and R.ops) else None
